@@ -17,6 +17,11 @@ def run(rep, tier, seed, rng):
             ndis += 1
             rep.violation("model and implementation disagree: " + "; ".join(r["dis"])[:400], gen_common.replay_data(r), found_input=False)
             continue
+        if r["impl_parsed"] and r["impl"]["rc"] == 0:
+            for clause, src, ds in mc.download_order(r["impl_parsed"], c[0]):
+                ndis += 1
+                rep.violation("a source inside a download directory is compiled without waiting for the download: %s (directory %s)" % (src, ds),
+                              gen_common.replay_data(r, clause=clause), found_input=True)
         if r["impl_parsed"] and r["model_parsed"]:
             oi, om = mc.orderonly_view(r["impl_parsed"]), mc.orderonly_view(r["model_parsed"])
             same = gen_common.same_builds(r)
@@ -38,4 +43,5 @@ def run(rep, tier, seed, rng):
                         "uses/depends graphs, cycles among build deps); `|` sections of compile/link/custom statements compared with the proved model; "
                         "non-trivial = file with >=1 compile statement carrying order-only deps",
                    samples=[dict(cli=results[-1]["cli"])], disagreements=ndis, builds_dropped_for_cycles=ncycle, **gen_common.stats(cases, results))
-    rep.assumptions.append("download modules (tag files, phony source aliases) are not modelled; the generator does not emit them")
+    rep.assumptions.append("downloads: nothing is fetched; the ordering statements (tag files, phony statements for downloaded sources, aliases for sources "
+                           "of other modules inside a download directory) are compared with the model and checked by the download_order predicate")
